@@ -423,6 +423,12 @@ def r3_lookup_pdu_class(ck, cx, rule='R3', decoders=('ServerDecoder', 'ClientDec
                 classes.append((dflt, k))
                 conds = [(U(e._sub), e.a) for e in p.ev if e.kind == 'cond']
                 default_ok = k is exc or any(param in c for c, a in conds)
+                # a sentinel default that this very path has excluded (`if found is _MISSING: ...` not taken) cannot come back here
+                for e in p.ev:
+                    t = getattr(e, '_sub', None)
+                    if e.kind == 'cond' and dflt is not None and isinstance(t, ast.Compare) and len(t.ops) == 1 and ast.dump(t.left) == ast.dump(r) \
+                            and U(t.comparators[0]) == U(dflt) and ((isinstance(t.ops[0], (ast.Is, ast.Eq)) and e.a is False) or (isinstance(t.ops[0], (ast.IsNot, ast.NotEq)) and e.a is True)):
+                        classes, default_ok = [], True
             elif isinstance(r, ast.Subscript) and U(r.value).endswith('__lookup'):
                 key = r.slice
             elif isinstance(r, ast.Name):
